@@ -83,13 +83,12 @@ Qed.
 Lemma partial_cut_slice p o n : partial_cut p o n = slice_spec p o n.
 Proof.
   unfold partial_cut, slice_spec.
-  destruct (o <? length p) eqn:Ho.
-  - apply Nat.ltb_lt in Ho.
-    destruct (length p <? o + n) eqn:He.
-    + apply Nat.ltb_lt in He.
-      rewrite !firstn_all2; [reflexivity | rewrite skipn_length; lia | rewrite skipn_length; lia].
-    + replace (o + n - o) with n by lia. reflexivity.
-  - apply Nat.ltb_ge in Ho. rewrite skipn_all2 by lia. now rewrite firstn_nil.
+  destruct (length p <=? o) eqn:Ho.
+  - apply Nat.leb_le in Ho. rewrite skipn_all2 by lia. now rewrite firstn_nil.
+  - apply Nat.leb_gt in Ho.
+    destruct (length p - o <? n) eqn:He; [|reflexivity].
+    apply Nat.ltb_lt in He.
+    rewrite !firstn_all2; [reflexivity | rewrite skipn_length; lia | rewrite skipn_length; lia].
 Qed.
 
 Inductive item_class := PartialIgnored.
